@@ -46,6 +46,7 @@ type PathRun struct {
 
 	inputs     []*Term
 	inputNames map[string]bool
+	kInputs    map[string]bool
 	covers     map[string]bool
 	tags       map[string]bool
 	bounds     map[string]int64
@@ -264,7 +265,11 @@ func (s *State) model() (map[string]string, []string) {
 			case m.IsBV:
 				out[in.Name] = fmt.Sprintf("0x%x", m.U)
 			default:
-				out[in.Name] = m.Q.RatString()
+				if r.kInputs[in.Name] && m.Q != nil && m.Q.IsInt() {
+					out[in.Name] = fmt.Sprintf("0x%x", kBits(m.Q.Num()))
+				} else {
+					out[in.Name] = m.Q.RatString()
+				}
 			}
 		}
 	}
@@ -365,4 +370,28 @@ func (s *State) panicReached(what, detail string) {
 		panic(abortf("solver unknown on path feasibility before panic %q", what))
 	}
 	panic(pathEnd{"panic: " + what})
+}
+
+// chooseFree forks over lo..hi without consulting the solver (the chosen variable is fresh and
+// unconstrained, so every value is feasible).
+func (s *State) chooseFree(lo, hi int64) int64 {
+	r := s.run
+	if r.pos < len(r.prefix) {
+		d := r.prefix[r.pos]
+		if d.Kind != 'v' {
+			panic(abortf("internal: decision kind mismatch at %d (want free choice, have %c) at %s", r.pos, d.Kind, s.site()))
+		}
+		r.pos++
+		r.taken = append(r.taken, d)
+		return d.V
+	}
+	for v := hi; v > lo; v-- {
+		sib := make([]Decision, len(r.taken)+1)
+		copy(sib, r.taken)
+		sib[len(r.taken)] = Decision{Kind: 'v', V: v}
+		s.eng.push(sib)
+	}
+	r.taken = append(r.taken, Decision{Kind: 'v', V: lo})
+	r.pos++
+	return lo
 }
